@@ -132,6 +132,8 @@ func (e *Env) formula(x ast.Expr, pol bool) string {
 				return eq(e.boolTerm(n.Args[0]), e.boolTerm(n.Args[1]))
 			case "forall", "exists":
 				return e.quant(n, id.Name == "forall", pol)
+			case "forallstr":
+				return e.quantStr(n, pol)
 			case "old":
 				e.nargs(n, 1)
 				return e.old.formula(n.Args[0], pol)
@@ -236,6 +238,45 @@ func (e *Env) quant(n *ast.CallExpr, isForall bool, pol bool) string {
 		return and(parts...)
 	}
 	return or(parts...)
+}
+
+// forallstr(c, body): quantification over all strings (map keys).  Goal side:
+// skolem constant; hypothesis side: instantiated at the string skolems of the
+// function.
+func (e *Env) quantStr(n *ast.CallExpr, pol bool) string {
+	e.nargs(n, 2)
+	id, ok := n.Args[0].(*ast.Ident)
+	if !ok {
+		e.fail("first argument of forallstr must be an identifier")
+	}
+	t := e.t
+	strT := types.Typ[types.String]
+	if pol {
+		key := ""
+		if e.skCnt != nil {
+			*e.skCnt++
+			key = fmt.Sprintf("%s#%d", e.skRoot, *e.skCnt)
+		}
+		sk, ok := t.skCache[key]
+		if !ok || key == "" {
+			sk = t.declare(t.fresh("sks."+id.Name), "Str")
+			if key != "" {
+				t.skCache[key] = sk
+			}
+		}
+		t.strTerms[sk] = true
+		return e.with(map[string]Val{id.Name: scalar(strT, sk)}).formula(n.Args[1], pol)
+	}
+	var ks []string
+	for k := range t.strTerms {
+		ks = append(ks, k)
+	}
+	sortStrings(ks)
+	var parts []string
+	for _, c := range ks {
+		parts = append(parts, e.with(map[string]Val{id.Name: scalar(strT, c)}).formula(n.Args[1], pol))
+	}
+	return and(parts...)
 }
 
 func (t *FnTrans) candidates(lo, hi string) []string {
